@@ -338,7 +338,8 @@ func GenEngineScript(r *Rng, o EngineGenOpts, hist map[string]int) []string {
 			add("pos %s", engKeys[r.Intn(len(engKeys))])
 		case x < 85 && o.Batches:
 			hist["op_batch"]++
-			add("batch %d", r.Intn(2))
+			bsync := r.Intn(2)
+			add("batch %d", bsync)
 			nb := 1 + r.Intn(8)
 			if r.Chance(1, 6) {
 				nb = 10 + r.Intn(30)
@@ -369,6 +370,11 @@ func GenEngineScript(r *Rng, o EngineGenOpts, hist map[string]int) []string {
 				}
 				y := r.Intn(10)
 				switch {
+				case y < 5 && bsync == 0 && r.Chance(1, 8):
+					// a Put whose overflow flush goes through while the Sync of the rotation behind it is refused; Commit then
+					// still owes the finished-record of the pieces that were flushed
+					add("bputsyncfail %s %s", genEngKey(r, hist), genEngVal(r, o, c, hist))
+					hist["op_batch_put_with_refused_sync_after_flush"]++
 				case y < 5 && r.Chance(1, 6):
 					// a Put whose overflow flush (when one is due) the operating system refuses
 					add("bputfail %s %s", genEngKey(r, hist), genEngVal(r, o, c, hist))
@@ -905,6 +911,9 @@ func init() {
 				for _, l := range sc {
 					if strings.HasPrefix(l, "E bputfail ") {
 						l = "E bput " + strings.TrimPrefix(l, "E bputfail ") // the fault depends on the I/O type
+					}
+					if strings.HasPrefix(l, "E bputsyncfail ") {
+						l = "E bput " + strings.TrimPrefix(l, "E bputsyncfail ")
 					}
 					if strings.HasPrefix(l, "E bpadto ") {
 						// the computed length depends on where the file ends, which depends on the configuration
